@@ -382,6 +382,16 @@ def instances(tier):
     for which_basis in ('aig',):
         own = CircuitsDatabase()
         own.open()
+        # nothing stored yet: every lookup finds nothing (and says so by returning None)
+        for want in ([[False, True, True, False]], [[False, False, False, True], [False, True, True, False]], [[False, True]]):
+            try:
+                got = own.get_by_raw_truth_table(want)
+            except core.CirboError as e:
+                raise Violation('instances:empty_database_lookup', f'an opened database with no entries yet: looking up {[list(map(int, r)) for r in want]} '
+                                                                   f'raised {type(e).__name__}: {e}')
+            done += 1
+            if got is not None:
+                raise Violation('instances:empty_database_lookup', f'an opened database with no entries returned a circuit for {want}')
         for types_, outs in ((('GT', 'AND'), 'uv'), (('AND', 'GT'), 'uv'), (('OR', 'LT'), 'uv'), (('LT', 'AND'), 'uv'),
                              (('AND', 'XOR'), 'uuv'), (('AND', 'XOR'), 'uvv'), (('AND', 'OR'), 'uvu')):
             c2 = core.Circuit.bare_circuit(2)
@@ -416,7 +426,7 @@ SPEC = {
              'in order. Don\'t-care lookups with 1-6 free cells: agrees with every defined cell and is no larger (default measure, or an explicit '
              'exclusion_list with an own gate count) than the lookup of every completion (own enumeration). Non-trivial: lookup needing negation / re-ordering / '
              'duplication; entries with a non-zero table.'
-             " Added during the build: prior lookups on the same database object (the same cells in rows of another length, an extra all-False row, another measure), equal rows with free cells, measures under which whole completions are free, and part 'instances' (private additions must not reach a database opened later; a database of one's own returns what was stored, also for repeated outputs)."),
+             " Added during the build: prior lookups on the same database object (the same cells in rows of another length, an extra all-False row, another measure), equal rows with free cells, measures under which whole completions are free, and part 'instances' (private additions must not reach a database opened later; a database of one's own finds nothing while it is empty and returns what was stored, also for repeated outputs)."),
     'assumptions': ['the set of stored labels is read from the opened database dictionary (no public iterator exists)'],
     'subs': [Sub('lookup', lookup_cases, check_lookup_case, {'quick': 1600, 'thorough': 150000}),
              Sub('dont_care_lookup', dc_cases, check_dc, {'quick': 320, 'thorough': 30000})],
